@@ -353,3 +353,58 @@ pub fn catch<T>(f: impl FnOnce() -> T) -> Result<T, String> {
 pub fn silence_panics() {
     std::panic::set_hook(Box::new(|_| {}));
 }
+
+// ---------------------------------------------------------------------------------------------
+// Watchdog: a subject call that does not return is reported as a violation for the case that was
+// running (the call cannot be interrupted, so the process exits after reporting).
+use std::sync::Mutex;
+use std::thread::ThreadId;
+static WATCH: Mutex<Option<std::collections::HashMap<ThreadId, (Instant, String, String)>>> = Mutex::new(None);
+
+pub struct Guard;
+impl Drop for Guard {
+    fn drop(&mut self) {
+        if let Ok(mut w) = WATCH.lock() {
+            if let Some(m) = w.as_mut() {
+                m.remove(&std::thread::current().id());
+            }
+        }
+    }
+}
+/// Register the case the current thread is about to run on the subject.
+pub fn guard(key: &str, case: impl FnOnce() -> Value) -> Guard {
+    if let Ok(mut w) = WATCH.lock() {
+        if let Some(m) = w.as_mut() {
+            m.insert(std::thread::current().id(), (Instant::now(), key.to_string(), case().to_string()));
+        }
+    }
+    Guard
+}
+pub fn start_watchdog(prop: String, limit_s: f64) {
+    *WATCH.lock().unwrap() = Some(Default::default());
+    std::thread::spawn(move || loop {
+        std::thread::sleep(std::time::Duration::from_millis(500));
+        let hit = {
+            let w = WATCH.lock().unwrap();
+            w.as_ref().and_then(|m| m.values().find(|(t, _, _)| t.elapsed().as_secs_f64() > limit_s).cloned())
+        };
+        if let Some((_, key, case)) = hit {
+            let dir = verif_root().join("replays");
+            let _ = std::fs::create_dir_all(&dir);
+            let path = dir.join(format!("{}-{:016x}.json", prop, h64(&case)));
+            let cv: Value = serde_json::from_str(&case).unwrap_or(Value::Null);
+            let kkey = format!("{key}:no-termination");
+            let body = json!({"property": prop, "key": kkey, "message": format!("subject call did not return within {limit_s} s"), "case": cv});
+            let _ = std::fs::write(&path, serde_json::to_string_pretty(&body).unwrap());
+            let known = load_known();
+            if let Some(k) = known.findings.iter().find(|k| k.property == prop && k.key == kkey) {
+                println!("KNOWN-FINDING: property={} {} [{}]", prop, k.what, k.key);
+                println!("MACHINERY: run aborted after a non-terminating known finding; no further coverage");
+                std::process::exit(2);
+            }
+            println!("VIOLATION property={} replay={}", prop, path.display());
+            println!("  key={kkey} :: subject call did not return within {limit_s} s");
+            std::process::exit(1);
+        }
+    });
+}
